@@ -72,7 +72,7 @@ REQUIRED = {"precedence.attribute": {"quick": 20000, "thorough": 1500000}, "bool
             "paths.relative_to_config_file": {"quick": 150, "thorough": 8000}, "list.order": {"quick": 400, "thorough": 20000},
             "userdata.define_parsing": {"quick": 2000, "thorough": 100000}, "userdata.cmdline_overrides_file": {"quick": 300, "thorough": 15000},
             "userdata.getters": {"quick": 1500, "thorough": 60000}, "userdata.namespace_view": {"quick": 500, "thorough": 20000}, "precedence.options_around_a_bare_color": {"quick": 200, "thorough": 8000}, "outputs.paired_with_formatters_in_order": {"quick": 300, "thorough": 10000}, "couplings.documented": {"quick": 100, "thorough": 4000}, "embedded.explicit_command_line_is_the_command_line": {"quick": 300, "thorough": 8000}}
-REQUIRED_SEEN = {"userdata_changed_with": ["update", "item_assignment", "config.update_userdata"], "stage_decided_by": ["cmdline", "file", "environment", "default", "cmdline_with_BEHAVE_STAGE_set", "file_with_BEHAVE_STAGE_set"], "embedded_args": ["none_means_sys_argv", "empty_list", "empty_str", "empty_tuple", "given"], "outfile_list_shape": ["stdout_placeholder_before_a_file"], "bare_color_position": ["first", "middle", "last"], "namespace_view_made": ["before_the_data", "after_the_data"],
+REQUIRED_SEEN = {"color_in_force": ["auto", "always", "off", "never"], "file_patterns_in_force": ["include", "exclude", "include+exclude"], "userdata_changed_with": ["update", "item_assignment", "config.update_userdata"], "stage_decided_by": ["cmdline", "file", "environment", "default", "cmdline_with_BEHAVE_STAGE_set", "file_with_BEHAVE_STAGE_set"], "embedded_args": ["none_means_sys_argv", "empty_list", "empty_str", "empty_tuple", "given"], "outfile_list_shape": ["stdout_placeholder_before_a_file"], "bare_color_position": ["first", "middle", "last"], "namespace_view_made": ["before_the_data", "after_the_data"],
                  "define_value_shape": ["different_quote_characters_at_the_ends"], "namespace_name_shape": ["name_starts_with_namespace_text"], "config_file_kind": ["behave.ini", ".behaverc", "setup.cfg", "tox.ini", "pyproject.toml"],
                  "config_file_place": ["cwd", "home"], "source_deciding": ["cmdline", "file", "default"]}
 EXHAUSTIVE = True
@@ -293,6 +293,20 @@ def random_case(mon, sc, rng, sample=False):
               config.steps_dir == ("%s_steps" % eff_stage if eff_stage else "steps") and
               config.environment_file == ("%s_environment.py" % eff_stage if eff_stage else "environment.py"),
               lambda: W(stage=eff_stage, decided_by=stage_src, steps_dir=config.steps_dir, environment_file=config.environment_file))
+    # what the colour setting in force means for a stream: on / always = coloured, off / never = plain, auto = coloured on a terminal
+    class _Stream(object):
+        def __init__(self, tty):
+            self.tty = tty
+
+        def isatty(self):
+            return self.tty
+    col = config.color
+    for tty in (True, False):
+        want_col = True if col in ("on", "always") else (False if col in ("off", "never") else tty)
+        got_col = config.has_colored_mode(file=_Stream(tty))
+        mon.check("color.setting_in_force_decides_for_terminal_and_pipe", bool(got_col) == want_col,
+                  lambda: W(color=col, stream="terminal" if tty else "pipe", coloured=got_col, want=want_col))
+    mon.seen("color_in_force", str(col))
     junit_on = cmd.get("junit", file_value.get("junit", False))
     for dest, (default, pos, neg) in BOOLS.items():
         if dest in cmd:
@@ -663,6 +677,34 @@ def userdata_histories(mon, sc, rng):
                   lambda: dict(definition="-D use_cache=%s" % text, loaded={"use_cache": not want_b, "retries": 3}, got=got, want=[want_b, 5, True]))
 
 
+def include_exclude(mon, sc, rng, n):
+    """--include / --exclude (include_re / exclude_re in a file), alone and TOGETHER, from any mix of command line and file: a feature
+    file is left out iff the include pattern in force does not match it or the exclude pattern in force does."""
+    import re as _re
+    names = ["features/alpha.feature", "features/alpha_slow.feature", "features/beta.feature", "features/sub/slow_beta.feature", "features/gamma.feature"]
+    pats = ["alpha", "slow", "beta", "a", "sub/", "^features/[ab]", "zzz"]
+    for i in range(n):
+        sc.clear_files()
+        inc_f, exc_f = rng.choice([None, None] + pats), rng.choice([None, None] + pats)
+        inc_c, exc_c = rng.choice([None, None] + pats), rng.choice([None, None] + pats)
+        lines = ["[behave]"] + (["include_re = %s" % inc_f] if inc_f else []) + (["exclude_re = %s" % exc_f] if exc_f else [])
+        if len(lines) > 1:
+            with open(os.path.join(sc.cwd, "behave.ini"), "w") as fh:
+                fh.write("\n".join(lines) + "\n")
+        args = (["-i", inc_c] if inc_c else []) + (["--exclude=%s" % exc_c] if exc_c else [])
+        config, err = make_config(args)
+        case = {"file": lines[1:], "args": args}
+        mon.case(("include-exclude", tuple(lines[1:]), tuple(args)), True)
+        if config is None:
+            mon.check("files.include_and_exclude_patterns_together", False, dict(case=case, error=err))
+            continue
+        inc, exc = inc_c or inc_f, exc_c or exc_f
+        mon.seen("file_patterns_in_force", ("include" if inc else "") + ("+" if inc and exc else "") + ("exclude" if exc else "") or "none")
+        want = {nm: bool((inc and _re.search(inc, nm) is None) or (exc and _re.search(exc, nm) is not None)) for nm in names}
+        got = {nm: bool(config.exclude(nm)) for nm in names}
+        mon.check("files.include_and_exclude_patterns_together", got == want, lambda: dict(case=case, include=inc, exclude=exc, left_out=got, want=want))
+
+
 def couplings(mon, sc, rng, n):
     for i in range(n):
         sc.clear_files()
@@ -857,6 +899,7 @@ def run(spec, mon):
             random_case(mon, sc, rng, sample=(i == 3 and spec["shard"] == 0))
         userdata_cases(mon, sc, rng, 250 if tier == "quick" else 8000)
         userdata_histories(mon, sc, rng)
+        include_exclude(mon, sc, rng, 40 if tier == "quick" else 1500)
         bare_color(mon, sc, rng, 20 if tier == "quick" else 600)
         formatter_outputs(mon, sc, rng, 25 if tier == "quick" else 800)
         couplings(mon, sc, rng, 10 if tier == "quick" else 300)
